@@ -87,6 +87,11 @@ func checkC03(c *core.Ctx, pc pcase) {
 	// (2) appended bytes: same value, same consumption, remainder = old remainder ++ x
 	r := core.NewRand(c.Seed, "c03ext", p.ID(), len(in), consumed)
 	exts := [][]byte{r.Bytes(1), r.Bytes(1 + r.Pick(64)), append([]byte{}, w...)}
+	if !p.Whole && r.Chance(1, 12) {
+		// a structure at the front of a large buffer (a stream, a file): more bytes follow than any
+		// length field of the structure can count
+		exts = append(exts, r.Bytes([]int{65533, 65535, 65536, 65537, 70000, 131072 + r.Pick(7)}[r.Pick(6)]))
+	}
 	for _, x := range exts {
 		ext := append(append([]byte{}, in...), x...)
 		o2, pk, _, _ := callParser(c, p, ext)
